@@ -445,7 +445,19 @@ def check_cdp_delta(ctx, fi):
     final, _ = S.final[0]
     ok = isinstance(final, ast.Call) and U(final.func) in ('min', 'builtins.min') and len(final.args) == 2 and \
         any(U(x) in ('1', '1.0') for x in final.args)
-    ctx.ob('clamp', fi, S.loop, ok, 'cdp_delta must return min(delta, 1); returns `%s`' % U(final)[:160], construct='clamp of the result')
+    log_clamp = False
+    if not ok and isinstance(final, ast.Call) and U(final.func) in ('math.exp', 'np.exp', 'exp') and len(final.args) == 1:
+        # the clamp taken in the log domain: `1.0 if E >= 0 else exp(E)` IS min(exp(E), 1) - here exp(E) is the whole result (nothing divides it afterwards)
+        E_ = final.args[0]
+        for item in list(S.early):
+            e_, path_ = item
+            t_, pol_ = path_[-1] if path_ else (None, True)
+            if t_ is not None and pol_ and U(e_) in ('1', '1.0') and isinstance(t_, ast.Compare) and len(t_.ops) == 1 and isinstance(t_.ops[0], (ast.GtE, ast.Gt)) \
+                    and T(t_.comparators[0]) in ('0', '0.0') and T(t_.left) == T(E_):
+                S.early.remove(item)
+                log_clamp = True
+    ctx.ob('clamp', fi, S.loop, ok or log_clamp, 'cdp_delta must return min(delta, 1); returns `%s`%s' % (U(final)[:160], ', and 1.0 where its exponent is non-negative' if log_clamp else ''),
+           construct='clamp of the result')
     dexpr = final
     if ok:
         dexpr = [x for x in final.args if U(x) not in ('1', '1.0')][0]
